@@ -370,7 +370,7 @@ def rule_r5(ctx):
               how="comparison constants of the two `ir_version <` tests", symbol="onnx_ir.serde:multi-device gating", construct=f"gates {gates}")
 
 
-def rule_r6(ctx):
+def rule_r6(ctx, rule="R6"):
     repo = ctx.repo
     n = 0
     for mn in ("onnx_ir._core", "onnx_ir.serde", "onnx_ir._multi_device"):
@@ -406,7 +406,7 @@ def rule_r6(ctx):
             for e, what in sources:
                 inner = e.args[0] if isinstance(e, ast.Call) and dotted_of(e.func) in ("list", "tuple", "iter") and e.args else e
                 n += 1
-                ctx.check("R6", f"{f.local}: {what} come from a recursive traversal ({norm(e)})", recursive(inner), f, e,
+                ctx.check(rule, f"{f.local}: {what} come from a recursive traversal ({norm(e)})", recursive(inner), f, e,
                           f"`{norm(e)}` visits only the top-level nodes: annotations on nodes nested in subgraphs (If/Loop/Scan bodies) are "
                           "skipped by this model-wide sweep - e.g. cascade removal leaves them pointing at a configuration the model no longer declares",
                           how="node source is <graph-like>.all_nodes() / RecursiveGraphIterator(<graph-like>)", construct=f"{what}: {norm(e)}")
